@@ -119,9 +119,19 @@ def gen_cases(tier):
             add("pair-in-bracket", ["[%s %s]" % (a, b)])
             add("pair-in-bracket2", ["[[%s %s]]" % (a, b)])
             add("pair-split-bracket", ["[" + a, b + "]"], "split")
+            # nested brackets typed without quotes: the first piece opens two or three brackets / an inner group opens later / closes early
+            add("nested-split-bracket", ["[[" + a, b + "]", "OP_3]"], "split")
+            add("nested-split-bracket", ["[" + a, "[" + b, "OP_3]]"], "split")
+            add("nested-split-bracket", ["[[[" + a, b + "]", "OP_3]", "4]"], "split")
+            add("nested-split-bracket", ["[[" + a + "]", b + "]"], "split")
             for nm, sep in SEPS:
                 add("ws-" + nm, ["[" + a + sep + b + "]"])
                 add("ws-" + nm + "-padded", ["[ " + a + sep + b + sep + "]"])
+            # comments that contain brackets, at the top level of a sub-script and inside a nested one
+            for nm, sep in (("comment-close", " # a ] b\n"), ("comment-open", " # [ x\n"), ("comment-both", " # ][ [[ ]\n")):
+                add("ws-" + nm, ["[" + a + sep + b + "]"])
+                add("ws-" + nm + "-nested", ["[[" + a + sep + b + "] OP_3]"])
+                add("ws-" + nm + "-nested2", ["[OP_3 [" + a + sep + b + "]" + sep + "]"])
             for c in SEQ_TOKENS:
                 add("triple", [a, b, c])
                 if thorough:
